@@ -231,3 +231,7 @@ mod tests {
         assert!(read_frame_into(&mut reader, &mut buf).is_err());
     }
 }
+
+#[cfg(kani)]
+#[path = "/verif/harness/bgzf/reader_frame.rs"]
+mod verif_kani;
